@@ -21,8 +21,10 @@ RULE = ('random declared parameter sets per metamodel (3-4 metamodels with diffe
         '(declared set, argument names, API, provider, closure size); non-trivial = an undeclared name is present or the '
         'closure has >= 2 files')
 REQUIRED = {'loads': 400, 'rejected_undeclared': 80, 'accepted': 150, 'imported_models_checked': 200, 'api_from_str': 50,
-            'api_from_str_file_name': 30, 'api_from_file': 100, 'metamodels_alive': 3, 'search_path_loads': 50}
+            'api_from_str_file_name': 30, 'api_from_file': 100, 'metamodels_alive': 3, 'search_path_loads': 50, 'loads_with_odd_undeclared_name': 100}
 NAMES = ['alpha', 'beta', 'gamma', 'delta', 'project_root', 'debug_level']
+# names that are never declared (any string can be a keyword of **kwargs)
+ODD = ['', ' ', '0', 'a-b', 'Alpha', 'alpha ', 'None']
 
 
 def one(ctx, i, rep=None):
@@ -61,6 +63,9 @@ def one(ctx, i, rep=None):
         for step in range(10):
             mm, declared, prov = r.choice(mms)
             names = r.sample(NAMES, r.randint(0, 3))
+            if r.random() < 0.25:
+                names = names[:2] + [r.choice(ODD)]
+                ctx.count('loads_with_odd_undeclared_name')
             kwargs = {}
             for n in names:
                 kwargs[n] = tmp if n == 'project_root' else r.choice([1, 'x', None, [1, 2], 0, False])
